@@ -1,5 +1,5 @@
 // auto-generated: "lalrpop 0.23.1"
-// sha3: 308f20a6f66b59434e4b3daab5a10732de80ffb13f3d6e31012314d63ffa79b2
+// sha3: 204eb7a81f316b552561e2c5cd6d40ab66ea031b5c3a160b146601e283b3beaf
 #[allow(unused_extern_crates)]
 extern crate lalrpop_util as __lalrpop_util;
 #[allow(unused_imports)]
@@ -641,8 +641,7 @@ fn __action1<
     (_, __0, _): (usize, &'input str, usize),
 ) -> String
 {
-    { /* } , ; */ let v = vec![(1, 2), (3, 4)]; // }
- v[1].0.to_string() }
+    r",,a/*".to_string()
 }
 
 #[allow(unused_variables)]
@@ -654,7 +653,7 @@ fn __action2<
     (_, __0, _): (usize, &'input str, usize),
 ) -> String
 {
-    { fn f<'a>(x: &'a str) -> &'a str { x } f("q").to_string() }
+    "/*,;a \"".to_string()
 }
 
 #[allow(unused_variables)]
@@ -666,7 +665,7 @@ fn __action3<
     (_, __0, _): (usize, &'input str, usize),
 ) -> String
 {
-    { fn f<'a>(x: &'a str) -> &'a str { x } f("q").to_string() }
+    "' */\n".to_string()
 }
 
 #[allow(unused_variables)]
@@ -678,7 +677,8 @@ fn __action4<
     (_, __0, _): (usize, &'input str, usize),
 ) -> String
 {
-    { let r = 7; let t = (r, 1); /* /* nested , */ ; */ (t.0 / t.1).to_string() }
+    { /* } , ; */ let v = vec![(1, 2), (3, 4)]; // }
+ v[1].0.to_string() }
 }
 
 #[allow(unused_variables)]
@@ -690,7 +690,7 @@ fn __action5<
     (_, __0, _): (usize, &'input str, usize),
 ) -> String
 {
-    'r'.to_string()
+    '{'.to_string()
 }
 
 #[allow(unused_variables)]
@@ -714,7 +714,7 @@ fn __action7<
     (_, __0, _): (usize, &'input str, usize),
 ) -> String
 {
-    r##"'/*"\"##.to_string()
+    { fn f<'a>(x: &'a str) -> &'a str { x } f("q").to_string() }
 }
 
 #[allow(unused_variables)]
@@ -726,7 +726,7 @@ fn __action8<
     (_, __0, _): (usize, &'input str, usize),
 ) -> String
 {
-    [{ let r#type = [1, 2, 3]; r#type[(0 + 1)].to_string() }, "'}\\".to_string()].concat()
+    "{{//]\u{7d}".to_string()
 }
 
 #[allow(clippy::type_complexity, dead_code)]
